@@ -93,6 +93,18 @@ def gen(rng: random.Random, tier: str, idx: int) -> dict:
                                    "op": rng.choice(["put", "get", "delete", "head"]), "cls": "LOCK",
                                    "nth": rng.choice([1, 1, 2, 3]),
                                    "dt": rng.choice([1.0, 20.0, 45.0, 61.0, 90.0, 200.0])})
+        if mode == "s3cas":
+            # faults on the RENEWAL path (heartbeat thread of a holder's process; the same conditional PUT shape is the
+            # takeover's): renewals failing transiently for a while, or one renewal / takeover PUT held in flight
+            if rng.random() < 0.35:
+                plan["faults"].append({"kind": "error", "proc": f"p{rng.randrange(n)}", "op": "put", "cls": "LOCK",
+                                       "detail": {"if_match": True}, "nth": rng.choice([1, 1, 2]),
+                                       "exc": rng.choice(["InternalError", "ServiceUnavailable", "EndpointConnectionError"]),
+                                       "burst": rng.choice([1, 2, 3, 5])})
+            if rng.random() < 0.3:
+                plan["faults"].append({"kind": "stall", "proc": f"p{rng.randrange(n)}", "op": "put", "cls": "LOCK",
+                                       "detail": {"if_match": True}, "nth": rng.choice([1, 2, 3]),
+                                       "dt": rng.choice([5.0, 30.0, 70.0])})
     plan["actors"] = acts
     return plan
 
